@@ -22,7 +22,7 @@ Theorem C16_source_facts :
   lock_is_reentrant = true /\ communicate_atomic = true /\ multicomm_holds_lock = true /\
   read_is_connected_is_wrapped = true /\ trigger_all_registered = true /\
   readline_splits_whole_buffer = true /\ readbytes_slices_prefix = true /\ flush_recv_clears_buffer = true /\
-  recv_empty_is_closed = true /\
+  recv_empty_is_closed = true /\ flush_after_wait_before = true /\
   recv_slice_s = 1%nat /\ initial_last_attempt = 0%nat.
 Proof. repeat split; reflexivity. Qed.
 
@@ -42,23 +42,47 @@ Proof.
 Qed.
 
 (* a transaction is never interleaved with other traffic: in every reachable state, the only step that writes to
-   the connection is the step of the caller that owns the lock and is parked at its own send *)
+   the connection is the step of the caller that owns the lock and is parked at its own send (is_send: the send of the
+   last line of its command, CSend, or of a line split off in front of it when wait_before is set, CSendPre) *)
 Theorem C16_transaction_atomic : forall md timeout interval slice progs rf cb poller sched x,
   let st := run md timeout interval slice (init progs rf cb poller) sched in
   sendlog (sh (step md timeout interval slice st x)) <> sendlog (sh st) ->
-  exists i c, fst (fst x) = TC i /\ nth_error (callers st) i = Some c /\ pc c = CSend /\ lock_owner (sh st) = Some i.
+  exists i c, fst (fst x) = TC i /\ nth_error (callers st) i = Some c /\ is_send (pc c) /\ lock_owner (sh st) = Some i.
 Proof.
   intros. apply (only_owner_writes md timeout interval slice); [|assumption].
   apply lock_inv_run. apply lock_inv_init.
 Qed.
 
-(* stale data is discarded: whenever a caller gets from the lock to its send, the receive buffer is empty and nothing
-   is readable on the socket any more (everything that arrived before the command is written has been thrown away);
-   the reply is then framed only from chunks received after that (recv_step_is_read_loop) *)
+(* stale data is discarded, for every wait_before (x_wait of the running command, any value): the step that brings a
+   caller to the send of the first line of its command is the step at the lock when wait_before is 0 and the step at the
+   end of the first sleep (CWaitB _ true _) when wait_before is set; after it the receive buffer is empty and nothing that
+   has arrived by `now` - the time of this step, i.e. the end of the pause - is readable on the socket: everything that
+   arrived before the command is written, also during the pause, has been thrown away; the reply is then framed only
+   from chunks received after that (recv_step_is_read_loop).  With wait_before set the step at the lock itself flushes
+   nothing and only starts the sleep (second clause), the sleep lasts wait_before (third), and the later lines of a
+   multi-line command are written one by one, each after another sleep of wait_before, without another flush (fourth,
+   fifth: `read garbage only once`) *)
 Theorem C16_stale_discarded : forall md timeout interval slice i now s c s' c',
-  pc c = CLock -> caller_step md timeout interval slice i now s c = (s', c') -> pc c' = CSend ->
+  (pc c = CLock /\ wait_of c = 0) \/ (exists w l, pc c = CWaitB w true l) ->
+  caller_step md timeout interval slice i now s c = (s', c') -> is_send (pc c') ->
   rxbuf s' = [] /\ head_ready now (queue s') = false.
 Proof. intros; eapply stale_discarded; eauto. Qed.
+
+Theorem C16_wait_before : forall md timeout interval slice i now s c,
+  (pc c = CLock -> wait_of c <> 0 ->
+     caller_step md timeout interval slice i now s c =
+       (acquire i s, set_pc c (CWaitB (now + wait_of c) true (pre_of md c)))) /\
+  (forall w f l, pc c = CWaitB w f l -> caller_enabled i now s c = true -> w <= now) /\
+  (forall p l, pc c = CSendPre (p :: l) ->
+     caller_step md timeout interval slice i now s c =
+       (send_line i now s p, set_pc c (CWaitB (now + wait_of c) false l))) /\
+  (forall w l, pc c = CWaitB w false l ->
+     caller_step md timeout interval slice i now s c = (s, set_pc c (send_pc l))).
+Proof.
+  intros. split; [intros; apply lock_then_sleep; assumption|].
+  split; [intros; eapply wait_before_honoured; eauto|].
+  split; [intros; apply pre_line_step; assumption|intros; eapply later_sleep_step; eauto].
+Qed.
 
 Theorem C16_reply_is_first_frame_received : forall md timeout interval slice i now s c e sl a d q',
   pc c = CRecv e sl -> queue s = mkItem a (Some d) :: q' -> a <= now ->
@@ -336,17 +360,39 @@ Example C16_chunking_example :
 Proof. vm_compute. repeat split; reflexivity. Qed.
 
 Example C16_attempts_example :
-  let x := {| x_id := 1; x_emit := []; x_close := None; x_n := 0; x_delay := 0; x_noreply := false |} in
+  let x := {| x_id := 1; x_emit := []; x_close := None; x_n := 0; x_delay := 0; x_noreply := false;
+              x_wait := 0; x_pre := [] |} in
   let progs := [[OSingle x; OPause 4; OSingle x; OPause 40; OSingle x]] in
   let sched := [(TC 0%nat, 100, false); (TC 0%nat, 100, false); (TC 0%nat, 100, false); (TC 0%nat, 104, false);
                 (TC 0%nat, 144, false)] in
   attempts MBytes 16 32 8 (init progs [true; true] [] false) sched = [100; 144].
 Proof. vm_compute. reflexivity. Qed.
 
+(* non-vacuity for wait_before: a line communicator with wait_before = 2 ticks; c1 is silent (time-out 16), its late reply
+   "r1" arrives at 118, inside the pause of the next command c2 (lock at 117, send at 119): it is gone when c2 is
+   written, c2 gets its own reply "r2"; the two-line command c3+c4 is written as two lines with a sleep in front of each *)
+Example C16_wait_before_example :
+  let x1 := {| x_id := 1; x_emit := [(18, [114; 49; 10]%N)]; x_close := None; x_n := 0; x_delay := 0; x_noreply := false;
+               x_wait := 2; x_pre := [] |} in
+  let x2 := {| x_id := 2; x_emit := [(1, [114; 50; 10]%N)]; x_close := None; x_n := 0; x_delay := 0; x_noreply := false;
+               x_wait := 2; x_pre := [] |} in
+  let x4 := {| x_id := 4; x_emit := [(0, [114; 52; 10]%N)]; x_close := None; x_n := 0; x_delay := 0; x_noreply := false;
+               x_wait := 2; x_pre := [(3%nat, [], None)] |} in
+  let t := TC 0%nat in
+  let sched := [(t, 98, false); (t, 98, false); (t, 98, false); (t, 98, false); (t, 100, false); (t, 100, false);
+                (t, 108, false); (t, 116, false); (t, 117, false); (t, 119, false); (t, 119, false); (t, 120, false);
+                (t, 120, false); (t, 122, false); (t, 122, false); (t, 124, false); (t, 124, false); (t, 124, false)] in
+  let st := run (MLine [10%N]) 16 32 8 (init [[OSingle x1; OSingle x2; OSingle x4]] [] [] false) sched in
+  map outs (callers st) = [[RFail; ROk [[114; 50]%N]; ROk [[114; 52]%N]]] /\
+  sendlog (sh st) = [(0, 1, 1); (0, 2, 1); (0, 3, 1); (0, 4, 1)]%nat.
+Proof. vm_compute. split; reflexivity. Qed.
+
 Print Assumptions C16_source_facts.
 Print Assumptions C16_mutual_exclusion.
 Print Assumptions C16_transaction_atomic.
 Print Assumptions C16_stale_discarded.
+Print Assumptions C16_wait_before.
+Print Assumptions C16_wait_before_example.
 Print Assumptions C16_reply_is_first_frame_received.
 Print Assumptions C16_framing_chunking.
 Print Assumptions C16_frame_is_split_at_eol.
